@@ -125,3 +125,85 @@ theorem C16_rows_add_vec (r : WsRows) (u : Nat) :
       rw [List.getElem?_eq_none (by simp; omega), List.getElem?_eq_none (by simp; omega)]
 
 end Tc
+
+namespace Tc
+
+/-- what `get_working_set` shows at index `j` (nothing beyond the end) -/
+def vecAt (v : List (Option Nat)) (j : Nat) : Option Nat := (v[j]?).join
+
+theorem rowsToVec_at (r : WsRows) (j : Nat) : vecAt (rowsToVec r) j = (r.find? (·.1 == j)).map (·.2) := by
+  unfold vecAt rowsToVec
+  by_cases hj : j < rowsMaxId r + 1
+  · rw [List.getElem?_map, List.getElem?_range hj]; simp
+  · rw [List.getElem?_eq_none (by simpa using Nat.le_of_not_lt hj)]
+    -- no row can have an id beyond the largest id
+    cases hf : r.find? (·.1 == j) with
+    | none => simp
+    | some p =>
+      have hm := List.mem_of_find?_eq_some hf
+      have hp : p.1 = j := by simpa using List.find?_some hf
+      have := foldl_max_mem r 0 p hm
+      simp only [rowsMaxId] at hj
+      omega
+
+theorem find?_filter_ne (r : WsRows) (i j : Nat) (h : j ≠ i) :
+    (r.filter (fun p => p.1 != i)).find? (fun p => p.1 == j) = r.find? (fun p => p.1 == j) := by
+  induction r with
+  | nil => rfl
+  | cons p ps ih =>
+    obtain ⟨a, b⟩ := p
+    by_cases ha : a = i
+    · -- the row is dropped, and it would not have matched j anyway
+      have haj : (a == j) = false := by
+        simp only [beq_eq_false_iff_ne]; intro e; exact h (e.symm.trans ha)
+      have hai : (a != i) = false := by simp [ha]
+      rw [List.filter_cons]
+      simp only [hai, Bool.false_eq_true, if_false, List.find?_cons, haj]
+      exact ih
+    · have hai : (a != i) = true := by simp [ha]
+      rw [List.filter_cons]
+      simp only [hai, if_true, List.find?_cons]
+      cases haj : (a == j)
+      · exact ih
+      · rfl
+
+theorem find?_filter_eq (r : WsRows) (i : Nat) :
+    (r.filter (fun p => p.1 != i)).find? (fun p => p.1 == i) = none := by
+  induction r with
+  | nil => rfl
+  | cons p ps ih =>
+    obtain ⟨a, b⟩ := p
+    by_cases ha : a = i
+    · have hai : (a != i) = false := by simp [ha]
+      rw [List.filter_cons]
+      simp only [hai, Bool.false_eq_true, if_false]
+      exact ih
+    · have hai : (a != i) = true := by simp [ha]
+      have hae : (a == i) = false := by simp [ha]
+      rw [List.filter_cons]
+      simp only [hai, if_true, List.find?_cons, hae]
+      exact ih
+
+/-- **`set_working_set_item` on rows is the vector's update**: afterwards index `i` shows the new
+    entry (or nothing), every other index shows what it showed before — INSERT OR REPLACE and
+    DELETE on the rows refine assignment on the vector, including the trimming of trailing blanks
+    (an index beyond the last row shows nothing either way) -/
+theorem C16_rows_set_vec (r : WsRows) (i : Nat) (x : Option Nat) (j : Nat) :
+    vecAt (rowsToVec (rowsSet r i x)) j = if j = i then x else vecAt (rowsToVec r) j := by
+  rw [rowsToVec_at, rowsToVec_at]
+  by_cases h : j = i
+  · subst h
+    cases x with
+    | none => simp only [rowsSet, if_true, find?_filter_eq]; rfl
+    | some u =>
+      simp only [rowsSet, if_true, List.find?_append, find?_filter_eq, List.find?_cons, beq_self_eq_true,
+        Option.none_or]
+      rfl
+  · cases x with
+    | none => simp only [rowsSet, h, if_false, find?_filter_ne r i j h]
+    | some u =>
+      have hij : (i == j) = false := by simp only [beq_eq_false_iff_ne]; exact fun e => h e.symm
+      simp only [rowsSet, h, if_false, List.find?_append, find?_filter_ne r i j h, List.find?_cons, hij,
+        List.find?_nil, Option.or_none]
+
+end Tc
